@@ -55,6 +55,11 @@ def parser_for(o, order=0):
         prods['OARGS'] = llparser.ListProds('<', 'VALUE', delim, '>', allow_final_delimiter=_afd(o), optional=True)
         prods['LIST'] = llparser.ListProds('[', item, delim, ']', allow_final_delimiter=_afd(o))
         prods['MAP'] = llparser.MapProds('{', 'WORD', ':', 'VALUE', ',', '}', allow_final_delimiter=o['mapafd'])
+    elif o['top'] == 'baremap':
+        prods['E'] = [('TOPMAP',)]
+        prods['TOPMAP'] = llparser.MapProds(None, 'WORD', ':', 'VALUE', ',', None, allow_final_delimiter=o['mapafd'])
+        prods['LIST'] = llparser.ListProds('[', item, delim, ']', allow_final_delimiter=_afd(o))
+        prods['MAP'] = llparser.MapProds('{', 'WORD', ':', 'VALUE', ',', '}', allow_final_delimiter=o['mapafd'])
     else:   # bare: a bracket-less list at the top, bracketed lists / maps inside
         prods['E'] = [('TOPLIST',)]
         prods['TOPLIST'] = llparser.ListProds(None, 'VALUE', delim, None, allow_final_delimiter=(False if o['afd'] == 'no' else None))
@@ -198,6 +203,11 @@ def run_case(job):
         for i, it in enumerate(items):
             toks += (['w', '='] + it + ([';'] if i + 1 < len(items) else []))
         full_want = ('NODE', 'E', [[('NODE', 'DECL', ['w', '=', wrap_args(x)]) for x in wl]])
+    elif o['top'] == 'baremap':
+        toks = toks[1:-1]              # the top map has no brackets; no pairs = empty text = {}
+        full_want = ('NODE', 'E', [want])
+        if toks and toks[-1] == ',':
+            return None                # a final delimiter of a bracket-less map is not judged
     elif o['top'] == 'bare':
         toks = toks[1:-1]              # the top list has no brackets
         full_want = ('NODE', 'E', [want])
